@@ -199,7 +199,7 @@ func main() {
 		// every operation (W) and local consistency + agreement with the from-scratch evaluator
 		// after every successful pass without mid-pass writes (C)
 		if prof.Name != "reject" && prof.Name != "limit" && prof.Name != "dags" && prof.Name != "deadobs" { // (deadobs: an observed node of a discarded generation keeps its old edges although invalid, which the quiescent invariant excludes by hypothesis) // after a structural rejection the invariants are known not to hold (recorded finding)
-			b.WriteString("Definition W := Eval vm_compute in omap (fun c : case => wf_trace (init (fst (fst c))) (map fst (snd c)) 0) cases.\nPrint W.\n")
+			b.WriteString("Definition W := Eval vm_compute in omap (fun c : case => wf_trace_live (init (fst (fst c))) (map fst (snd c)) 0) cases.\nPrint W.\n")
 			b.WriteString("Definition C := Eval vm_compute in omap (fun c : case => c01_hyp_trace (init (fst (fst c))) (map fst (snd c)) 0) cases.\nPrint C.\n")
 		}
 		if err := os.WriteFile(*coqOut, []byte(b.String()), 0o644); err != nil {
